@@ -69,3 +69,13 @@ info('C03',
      ['frame conditions by freshness analysis (effects mode of the interpreter): not built; bounded only',
       'MPS/MPO level aliasing: bounded only'],
      [A_BUILD], configs=BOTH)
+info('C04',
+     'P: the pure-Python fallback _make_stride (both styles) against its "Equivalent to" specification (shared with C06). '
+     'B (bounded, not proof): every operation program of C01 executed with identical seeds in two interpreter processes '
+     '(extension rebuilt from the current _npc_helper.pyx / TENPY_NO_CYTHON=1), results compared field by field; both processes '
+     'report which implementation is active. The compiled side of C01/C02/C03/C05/C06 is likewise always a fresh build.',
+     ['no deductive statement about Cython code (mechanical extraction of the Python-like kernels not built)',
+      '"a source edit changes behaviour only through a rebuild" is a statement about the build: the check always rebuilds from '
+      'the current tree, which is all it can do about it',
+      'algorithm-level equivalence (DMRG/TEBD in both configurations): not compared'],
+     [A_BUILD])
